@@ -726,7 +726,11 @@ func GenCase(r *common.Rng) Case {
 // a RAM code section (execution mode hy / vn) whose sections share opcodes, and ROM / RAM data
 // sections whose sizes straddle the powers of two (code + data = 2^k-1, 2^k, 2^k+1).
 func GenExtCase(r *common.Rng) Case {
-	switch r.Intn(8) {
+	sel := r.Intn(8)
+	if RomsizeWithData && sel < 6 && r.Chance(1, 4) {
+		sel = 6 // (the ROM / RAM sizing cases below)
+	}
+	switch sel {
 	case 0, 1:
 		return GenSoCase(r)
 	case 2, 3:
@@ -762,7 +766,7 @@ func GenExtCase(r *common.Rng) Case {
 		}
 	}
 	cp := "%meta cpdef cpu romcode:romc"
-	sel := r.Intn(3)
+	sel = r.Intn(3)
 	if noLit {
 		sel = 1
 	}
@@ -802,6 +806,12 @@ func GenExtCase(r *common.Rng) Case {
 		}
 		b.WriteString("%endsection\n")
 		cp += ", romdata:datao"
+		withRomsize := RomsizeWithData && !noLit && r.Chance(3, 4)
+		if withRomsize {
+			// an explicit ROM depth next to the data section: too small (the tool must refuse or the machine must still hold
+			// code + data), exact, or generous
+			cp += ", romsize:" + strconv.Itoa([]int{k - 1, k, k, k + 1, k + 2}[r.Intn(5)])
+		}
 		if !noLit && r.Bool() {
 			c.Kind = "ext:romdata+ramdata"
 			nr := []int{1, 3, 4, 5, 7, 8, 9}[r.Intn(7)]
@@ -811,6 +821,9 @@ func GenExtCase(r *common.Rng) Case {
 			}
 			b.WriteString("%section dataa .ramdata\n\tw1 db " + strings.Join(rv, ", ") + "\n%endsection\n")
 			cp += ", ramdata:dataa"
+		}
+		if withRomsize {
+			c.Kind += "+romsize"
 		}
 	}
 	b.WriteString(cp + "\n")
